@@ -219,6 +219,25 @@ def assignment_templates():
             T.append([("set", "m", ("mut", None, init)), st, rd])
             T.append([("fndecl", "g", [("m", cell(ct))], ANY, [st, ("return", rd)]), ("call", V("g"), [("mut", ct, init)])])
             T.append([("set", "m", ("mut", ct, init)), ("fndecl", "g", [], ANY, [st, ("return", rd)]), ("tuple", [("call", V("g"), []), rd])])
+    # the TARGET is statically a UNION of cell types with different contents (`mut A | mut B`: an element of an array of
+    # cells, a function result, an if-expression): only a value that fits EVERY member may be stored through it - a right
+    # side of type A, B, or exactly the content union A | B fits one member and not the other
+    FL = lambda x: ("f", x)
+    pairs = [(INT, I(1), I(2), FLOAT, FL(1.5), FL(2.5)), (INT, I(1), I(2), STR, ("s", "a"), ("s", "b")),
+             (arr(INT), ("array", [I(1)]), ("array", [I(2)]), arr(FLOAT), ("array", [FL(1.5)]), ("array", [FL(2.5)]))]
+    for (ta, a1, a2, tb, b1, b2) in pairs:
+        pre = [("set", "ca", ("mut", ta, a1)), ("set", "cb", ("mut", tb, b1)), ("set", "vals", ("array", [a2, b2]))]
+        mu = multi(cell(ta), cell(tb))
+        pick = ("fndecl", "pick", [("k", INT)], mu, [("if", ("bin", "eq", V("k"), I(0)), ("block", [("return", V("ca"))]), None), ("return", V("cb"))])
+        rd = ("tuple", [("pre", "deref", V("ca")), ("pre", "deref", V("cb"))])
+        for k in (0, 1):
+            targets = [("at", ("array", [V("ca"), V("cb")]), I(k)), ("call", V("pick"), [I(k)]),
+                       ("if", ("bin", "eq", ("at", ("array", [I(0), I(1)]), I(k)), I(0)), ("block", [V("ca")]), ("block", [V("cb")]))]
+            for tg in targets:
+                for rhs in (("at", V("vals"), I(1 - k)), ("at", V("vals"), I(k)), a2, b2):
+                    for op in ("set", "add"):
+                        T.append(pre + [pick, ("assign", op, tg, rhs), rd])
+                        T.append(pre + [pick, ("fndecl", "g", [], ANY, [("assign", op, tg, rhs), ("return", rd)]), ("call", V("g"), [])])
     return T
 
 
